@@ -103,6 +103,17 @@ CANARIES = {
     "C17": [
         ("wrapper-handler-lost", "stix2/base.py", "drop-except-handler", ["_STIXBase._check_property", "except Exception"], "C17.wrapper"),
         ("shape-test-removed", "stix2/parsing.py", "drop-raise-guard", ["dict_to_stix2", "'type' not in stix_dict"], "C17.raw-deref"),
+        ("registry-class-attribute-unguarded", "stix2/base.py", "text", ["""getattr(
+                                registered_ext_class, "_toplevel_properties",
+                                None,
+                            ) or {},""", "registered_ext_class._toplevel_properties,"], "C17.registry-class-attr"),
+        ("validator-unguarded", "stix2/v20/sdo.py", "text", ["""        try:
+            errors = run_validator(self.get('pattern'), '2.0')
+        except Exception as exc:
+            # A failure inside the pattern validator is a refusal of the
+            # pattern, not an internal error of this library.
+            errors = [exc]
+""", "        errors = run_validator(self.get('pattern'), '2.0')\n"], "C17.input-parsers-guarded"),
     ],
     "C18": [
         ("own-filters-not-forwarded", "stix2/datastore/__init__.py", "delete-call-stmt", ["CompositeDataSource.query", "all_filters.add(self.filters)"], "C18.member-forward"),
